@@ -423,6 +423,117 @@ let cbisync_line line =
         (match r with None -> "-" | Some (_, pl) -> if pl = [] then "-" else
            String.concat "," (List.map (fun (p, act) -> action_str act ^ ":" ^ hex_of_zl p) pl)) in
     Printf.printf "%s %s\n" id (if states = [] then "-" else String.concat "|" (List.map st states))
+(* ---------------- C19: glob / is_excluded / needs_transfer / build_plan / listing ---------------- *)
+(* strings arrive as hex of UTF-8 bytes; the matcher and the planner work on characters *)
+let utf8_decode (bs : int list) : int list =
+  let rec go acc = function
+    | [] -> List.rev acc
+    | b :: r when b < 0x80 -> go (b :: acc) r
+    | b :: b1 :: r when b land 0xE0 = 0xC0 -> go ((((b land 0x1F) lsl 6) lor (b1 land 0x3F)) :: acc) r
+    | b :: b1 :: b2 :: r when b land 0xF0 = 0xE0 ->
+      go ((((b land 0x0F) lsl 12) lor ((b1 land 0x3F) lsl 6) lor (b2 land 0x3F)) :: acc) r
+    | b :: b1 :: b2 :: b3 :: r when b land 0xF8 = 0xF0 ->
+      go ((((b land 0x07) lsl 18) lor ((b1 land 0x3F) lsl 12) lor ((b2 land 0x3F) lsl 6) lor (b3 land 0x3F)) :: acc) r
+    | _ -> failwith "bad utf8" in
+  go [] bs
+let utf8_encode (cs : int list) : int list =
+  List.concat_map (fun c ->
+    if c < 0x80 then [c]
+    else if c < 0x800 then [0xC0 lor (c lsr 6); 0x80 lor (c land 0x3F)]
+    else if c < 0x10000 then [0xE0 lor (c lsr 12); 0x80 lor ((c lsr 6) land 0x3F); 0x80 lor (c land 0x3F)]
+    else [0xF0 lor (c lsr 18); 0x80 lor ((c lsr 12) land 0x3F); 0x80 lor ((c lsr 6) land 0x3F); 0x80 lor (c land 0x3F)]) cs
+let chars_of_hex s = List.map z_of_int (utf8_decode (unhex s))
+let hex_of_chars l = hex (utf8_encode (List.map int_of_z l))
+
+(* decimal text of an arbitrary Z (sizes reach 2^64-1) *)
+let dec_of_z z =
+  let rec bits acc = function XH -> true :: acc | XO p -> bits (false :: acc) p | XI p -> bits (true :: acc) p in
+  let of_pos p =
+    (* bits most significant first; decimal digits least significant first *)
+    let ds = ref [0] in
+    List.iter (fun b ->
+      let carry = ref (if b then 1 else 0) in
+      ds := List.map (fun d -> let v = 2 * d + !carry in carry := v / 10; v mod 10) !ds;
+      if !carry > 0 then ds := !ds @ [!carry]) (bits [] p |> List.rev |> List.rev);
+    String.concat "" (List.rev_map string_of_int !ds) in
+  match z with Z0 -> "0" | Zpos p -> of_pos p | Zneg p -> "-" ^ of_pos p
+let z_of_sdec s =
+  if String.length s > 0 && s.[0] = '-' then Z.opp (z_of_dec (String.sub s 1 (String.length s - 1))) else z_of_dec s
+
+let b01 b = if b then "1" else "0"
+let hexlist l = if l = [] then "-" else String.concat "," (List.map hex_of_chars l)
+
+let rec take_n n l = if n = 0 then ([], l) else match l with x :: r -> let (a, b) = take_n (n - 1) r in (x :: a, b) | [] -> failwith "short case"
+
+let c19_line line =
+  match split_ws line with
+  | id :: "G" :: pat :: text :: _ ->
+    let p = chars_of_hex pat and t = chars_of_hex text in
+    Printf.printf "%s G m=%s gm=%s\n" id (b01 (m_glob_match p t)) (b01 (m_gm p t))
+  | id :: "H" :: pat :: text :: _ ->
+    Printf.printf "%s H m=%s\n" id (b01 (m_glob_match (chars_of_hex pat) (chars_of_hex text)))
+  | id :: "E" :: rel :: n :: rest ->
+    let (pats, _) = take_n (int_of_string n) rest in
+    let pats = List.map chars_of_hex pats and rel = chars_of_hex rel in
+    Printf.printf "%s E x=%s spec=%s\n" id (b01 (m_is_excluded rel pats)) (b01 (m_is_excluded_gm rel pats))
+  | id :: "N" :: ss :: sm :: present :: ds :: dm :: _ ->
+    let s = { fm_size = z_of_dec ss; fm_mtime = z_of_sdec sm } in
+    let d = if present = "1" then Some { fm_size = z_of_dec ds; fm_mtime = z_of_sdec dm } else None in
+    Printf.printf "%s N %s\n" id (b01 (m_needs_transfer s d))
+  | id :: "P" :: del :: n :: rest ->
+    let (pats, rest) = take_n (int_of_string n) rest in
+    let read_map rest =
+      match rest with
+      | cnt :: rest ->
+        let (fields, rest) = take_n (3 * int_of_string cnt) rest in
+        let rec build m = function
+          | p :: sz :: mt :: r -> build (m_mm_insert (chars_of_hex p) { fm_size = z_of_dec sz; fm_mtime = z_of_sdec mt } m) r
+          | _ -> m in
+        (build [] fields, rest)
+      | [] -> failwith "short case" in
+    let (src, rest) = read_map rest in
+    let (dst, _) = read_map rest in
+    let plan = m_build_plan src dst (List.map chars_of_hex pats) (del = "1") in
+    Printf.printf "%s P T=%s S=%s D=%s\n" id (hexlist plan.transfer) (dec_of_z plan.skipped) (hexlist plan.sp_delete)
+  | id :: "L" :: bytes :: _ ->
+    let m = m_parse_listing (zl_of_hex bytes) in
+    let body = if m = [] then "-" else
+      String.concat "," (List.map (fun (p, fm) -> Printf.sprintf "%s:%s:%s" (hex_of_zl p) (dec_of_z fm.fm_size) (dec_of_z fm.fm_mtime)) m) in
+    Printf.printf "%s L n=%d %s\n" id (List.length m) body
+  | _ -> ()
+
+(* ---------------- C18: reconcile_path / reconcile ---------------- *)
+let action_string = function
+  | Noop -> "Noop" | PropagateAtoB -> "PropagateAtoB" | PropagateBtoA -> "PropagateBtoA"
+  | ConvergeIdentical -> "ConvergeIdentical" | DeleteA -> "DeleteA" | DeleteB -> "DeleteB"
+  | Conflict BothChanged -> "Conflict(BothChanged)" | Conflict DeleteVsModify -> "Conflict(DeleteVsModify)"
+let parse_fp s =
+  if s = "-" then None else
+  match String.split_on_char ':' s with
+  | [d; t] -> Some { blake3 = zl_of_hex d; ftype = (if t = "S" then Symlink else File) }
+  | _ -> failwith "bad fingerprint"
+
+let c18_line line =
+  match split_ws line with
+  | id :: "R" :: a :: b :: z :: _ ->
+    let a = parse_fp a and b = parse_fp b and z = parse_fp z in
+    Printf.printf "%s R %s table=%s\n" id (action_string (m_reconcile_path a b z)) (action_string (m_table a b z))
+  | id :: "T" :: trust :: rest ->
+    let read_map rest =
+      match rest with
+      | cnt :: rest ->
+        let (fields, rest) = take_n (2 * int_of_string cnt) rest in
+        let rec build m = function
+          | p :: f :: r -> (match parse_fp f with Some fp -> build (m_fp_insert (zl_of_hex p) fp m) r | None -> failwith "absent fp in a map")
+          | _ -> m in
+        (build [] fields, rest)
+      | [] -> failwith "short case" in
+    let (a, rest) = read_map rest in
+    let (b, rest) = read_map rest in
+    let (z, _) = read_map rest in
+    let res = m_reconcile a b z (trust = "1") in
+    Printf.printf "%s T %s\n" id
+      (if res = [] then "-" else String.concat "," (List.map (fun (p, x) -> hex_of_zl p ^ "=" ^ action_string x) res))
   | _ -> ()
 
 let () =
@@ -441,4 +552,6 @@ let () =
       | id :: p :: _ -> Printf.printf "%s %s\n" id (if refused (zl_of_hex p) then "REFUSED" else "ACCEPTED")
       | _ -> ())
   | _ :: "c20" :: file :: _ -> iter_lines file c20_line
+  | _ :: "c19" :: file :: _ -> iter_lines file c19_line
+  | _ :: "c18" :: file :: _ -> iter_lines file c18_line
   | _ -> prerr_endline "usage: driver <kind> <cases file>"; exit 2
